@@ -514,6 +514,20 @@ func prepareRPC(st *rpcState, cfg *ConfigPlan) {
 		req.Body = http.NoBody
 		st.body.ended, st.body.endErr = true, io.EOF
 	}
+	if len(cp.ReqTrailers) > 0 && req.Body == st.body {
+		// as net/http does it: the announced names are there from the start (no values), the values are put into this
+		// very map when the body's end has been read
+		req.Trailer = http.Header{}
+		for _, kv := range cp.ReqTrailers {
+			req.Trailer[http.CanonicalHeaderKey(kv[0])] = nil
+		}
+		tm, tr := req.Trailer, cp.ReqTrailers
+		st.body.onEOF = func() {
+			for _, kv := range tr {
+				tm.Add(kv[0], kv[1])
+			}
+		}
+	}
 	req.RemoteAddr = "192.0.2.1:1234"
 	st.req = req
 	st.orig = origRequest{Method: req.Method, Path: req.URL.Path, RawPath: req.URL.RawPath, RawQuery: req.URL.RawQuery, Proto: req.Proto, ProtoMajor: req.ProtoMajor,
